@@ -7,6 +7,7 @@
 #include "shim_nat.hpp"
 
 #include <arpa/inet.h>
+#include <cstdlib>
 #include <memory>
 
 namespace verif {
@@ -193,11 +194,11 @@ Built build_structured(Ctx& c, bool allow_dev) {
     std::uint16_t type = 0x0101;
     std::uint8_t cookie[4] = {0x21, 0x12, 0xA4, 0x42};
     if (allow_dev) {
-        switch (t.h(3) % 8) {
-            case 4: type = 0x0111; break;
-            case 5: type = 0x0001; break;
-            case 6: type = 0x0101 ^ static_cast<std::uint16_t>(1u << (t.h(4) % 16)); break;
-            case 7: type = static_cast<std::uint16_t>(t.h(4) | (t.h(5) << 8)); break;
+        switch (t.h(3) % 16) {
+            case 12: type = 0x0111; break;
+            case 13: type = 0x0001; break;
+            case 14: type = 0x0101 ^ static_cast<std::uint16_t>(1u << (t.h(4) % 16)); break;
+            case 15: type = static_cast<std::uint16_t>(t.h(4) | (t.h(5) << 8)); break;
             default: break;
         }
         if (t.h(11) % 4 == 3) { prng.fill(cookie, 4); cookie[0] ^= 0x80; }
@@ -439,7 +440,7 @@ void run_case(Ctx& c) {
     }
     // the transaction id the client is waiting for
     Txid want = b.txid;
-    switch (t.h(1) % 4) {
+    switch (t.h(1) % 8) {
         case 1: want[(t.h(2) % 96) / 8] ^= static_cast<std::uint8_t>(1u << (t.h(2) % 8)); c.label("txid_one_bit_off"); break;
         case 2: { Prng p(t.h32(12) ^ 0x7A1D); p.fill(want.data(), 12); c.label("txid_random"); break; }
         default: break;
@@ -450,6 +451,8 @@ void run_case(Ctx& c) {
 }
 
 std::string run_once(Ctx& c) {
+    // (sensitivity experiments set VERIF_SKIP_ONCE to see what the generated cases alone detect)
+    if (std::getenv("VERIF_SKIP_ONCE")) return "";
     // the reference decoder and the parser on the RFC 5769 sample responses
     struct V { const std::uint8_t* p; std::size_t n; int family; const char* text; std::uint16_t port; };
     const V vs[] = {{kRfc5769v4, sizeof kRfc5769v4, 1, "192.0.2.1", 32853},
